@@ -31,7 +31,9 @@ NBase == Len(BaseSize)
 IntegerBases == {1, 2, 3, 4, 5, 6, 7, 8}
 
 NoMembers == <<>>
-MkType(k, id, t, d, m, e) == [k |-> k, id |-> id, t |-> t, d |-> d, m |-> m, e |-> e]
+(* C++ classes (Lang = "cxx") add to a struct: b = base classes (type refs), vf = virtual member functions (name numbers, *)
+(* in vtable order), mf = non-virtual member functions (name numbers); members carry an access specifier.                 *)
+MkType(k, id, t, d, m, e) == [k |-> k, id |-> id, t |-> t, d |-> d, m |-> m, e |-> e, b |-> <<>>, vf |-> <<>>, mf |-> <<>>]
 Member(n, t, bw) == [n |-> n, t |-> t, bw |-> bw, acc |-> "public"]
 
 VARIABLES types, fns, vars,      \* the first program
@@ -49,7 +51,7 @@ Range(s) == {s[i] : i \in 1..Len(s)}
 (* direct references of a type *)
 Refs(ts, i) ==
   LET ty == ts[i] IN
-    CASE ty.k \in {"struct", "union"} -> {ty.m[j].t : j \in 1..Len(ty.m)}
+    CASE ty.k \in {"struct", "union"} -> {ty.m[j].t : j \in 1..Len(ty.m)} \cup {ty.b[j] : j \in 1..Len(ty.b)}
       [] ty.k = "fnptr" -> ({ty.t} \cup {ty.m[j].t : j \in 1..Len(ty.m)}) \ {0}
       [] ty.k \in {"typedef", "ptr", "const", "array"} -> {ty.t} \ {0}
       [] OTHER -> {}
@@ -64,8 +66,11 @@ ByVal(ts, i) ==
   IF i = 0 THEN {} ELSE
   LET ty == ts[i] IN
     CASE ty.k \in {"struct", "union"} -> {i} \cup UNION {ByVal(ts, ty.m[j].t) : j \in 1..Len(ty.m)}
+                                             \cup UNION {ByVal(ts, ty.b[j]) : j \in 1..Len(ty.b)}
       [] ty.k \in {"typedef", "const", "array"} -> ByVal(ts, ty.t)
       [] OTHER -> {}
+
+InUnion(ts, i) == \E u \in TRef(ts) : ts[u].k = "union" /\ i \in ByVal(ts, u)
 
 (* the type a reference denotes once typedefs and cv are peeled *)
 RECURSIVE Strip(_, _)
@@ -78,7 +83,7 @@ IsScalar(ts, i) == i # 0 /\ LET s == Strip(ts, i) IN ts[s].k \in {"base", "ptr",
 IsArrayLike(ts, i) == i # 0 /\ ts[Strip(ts, i)].k = "array"
 IsObject(ts, i) == i # 0                              \* every non-void type we build is a complete object type at the end
 ParamOk(ts, i) == i # 0 /\ ~IsArrayLike(ts, i)       \* arrays decay when used as parameters: never generated there
-RetOk(ts, i) == i = 0 \/ (~IsArrayLike(ts, i) /\ ts[i].k # "const")   \* C drops top-level qualifiers of a return type: never generated there
+RetOk(ts, i) == i = 0 \/ (~IsArrayLike(ts, i) /\ ~HasTopConst(ts, i))   \* C drops top-level qualifiers of a return type: never generated there
 ConstOk(ts, i) == i # 0 /\ ts[i].k \in {"base", "ptr", "struct", "union", "enum", "typedef"} /\ ~IsArrayLike(ts, i)
 
 IfaceRoots(f) == ({f.r} \cup {f.p[j].t : j \in 1..Len(f.p)}) \ {0}
@@ -95,14 +100,15 @@ LocalEq(a, b) ==
   /\ a.k = b.k
   /\ CASE a.k = "base" -> a.id = b.id
        [] a.k \in {"struct", "union"} -> a.id = b.id /\ Len(a.m) = Len(b.m) /\ a.d = b.d
-                                         /\ \A j \in 1..Len(a.m) : a.m[j].n = b.m[j].n /\ a.m[j].bw = b.m[j].bw
+                                         /\ \A j \in 1..Len(a.m) : a.m[j].n = b.m[j].n /\ a.m[j].bw = b.m[j].bw /\ a.m[j].acc = b.m[j].acc
+                                         /\ Len(a.b) = Len(b.b) /\ a.vf = b.vf /\ a.mf = b.mf
        [] a.k = "enum" -> a.id = b.id /\ a.e = b.e
        [] a.k = "typedef" -> a.id = b.id
        [] a.k = "array" -> a.d = b.d
        [] a.k = "fnptr" -> Len(a.m) = Len(b.m) /\ ((a.t = 0) <=> (b.t = 0))
        [] OTHER -> (a.t = 0) <=> (b.t = 0)
 ChildPairs(a, b) ==
-  CASE a.k \in {"struct", "union"} -> {<<a.m[j].t, b.m[j].t>> : j \in 1..Len(a.m)}
+  CASE a.k \in {"struct", "union"} -> {<<a.m[j].t, b.m[j].t>> : j \in 1..Len(a.m)} \cup {<<a.b[j], b.b[j]>> : j \in 1..Len(a.b)}
     [] a.k = "fnptr" -> ({<<a.t, b.t>>} \cup {<<a.m[j].t, b.m[j].t>> : j \in 1..Len(a.m)}) \ {<<0, 0>>}
     [] a.k \in {"typedef", "ptr", "const", "array"} -> {<<a.t, b.t>>} \ {<<0, 0>>}
     [] OTHER -> {}
@@ -159,7 +165,7 @@ BuildType ==
      \/ pick = "array" /\ \E t \in {i \in TRef(types) : types[i].k # "const"}, d \in {1, 3} :
           (\A i \in TRef(types) : ~(types[i].k = "array" /\ types[i].t = t /\ types[i].d = d))
           /\ AddType(MkType("array", 0, t, d, <<>>, <<>>))
-     \/ pick = "fnptr" /\ \E r \in ({i \in TRef(types) : IsScalar(types, i)} \cup {0}), np \in 0..2 :
+     \/ pick = "fnptr" /\ \E r \in ({i \in TRef(types) : IsScalar(types, i) /\ ~HasTopConst(types, i)} \cup {0}), np \in 0..2 :
           \E ps \in [1..np -> {i \in TRef(types) : IsScalar(types, i)}] :
             AddType(MkType("fnptr", 0, r, 0, [j \in 1..np |-> [n |-> 0, t |-> ps[j], bw |-> 0, acc |-> ""]], <<>>))
 EndTypes == /\ phase = "types" /\ pick = "" /\ (budget.ty = 0 \/ Len(types) = MaxTypes) /\ Len(types) > 0
@@ -170,10 +176,28 @@ BuildMember ==
   /\ phase = "members" /\ budget.mem > 0
   /\ \E i \in {i \in TRef(types) : IsAgg(types, i) /\ Len(types[i].m) < MaxMembers}, t \in TRef(types) :
        /\ i \notin ByVal(types, t)
+       /\ ((types[i].k = "union" \/ InUnion(types, i)) => \A x \in ByVal(types, t) : types[x].vf = <<>>)
        /\ \E bw \in (IF IsIntegerLike(types, t) /\ types[i].k = "struct" /\ types[t].k = "base" THEN {0, 3} ELSE {0}) :
             types' = [types EXCEPT ![i].m = Append(@, Member(Len(@) + 1, t, bw))]
   /\ budget' = [budget EXCEPT !.mem = @ - 1]
   /\ UNCHANGED <<fns, vars, types2, fns2, vars2, muts, phase, fresh, pick>>
+(* C++ only: give an existing struct a base class, a virtual or a non-virtual member function, or make a member private.   *)
+(* A class with virtual functions is not trivially copyable: it is kept out of unions.                                       *)
+BuildClassExtra ==
+  /\ Lang = "cxx" /\ phase = "members" /\ budget.mem > 0
+  /\ \E i \in {i \in TRef(types) : types[i].k = "struct"} :
+       \/ \E j \in {j \in TRef(types) : types[j].k = "struct" /\ j # i} :
+            /\ i \notin ByVal(types, j) /\ Len(types[i].b) < 2 /\ \A k \in 1..Len(types[i].b) : types[i].b[k] # j
+            /\ (InUnion(types, i) => types[j].vf = <<>> /\ \A x \in ByVal(types, j) : types[x].vf = <<>>)
+            /\ types' = [types EXCEPT ![i].b = Append(@, j)] /\ UNCHANGED fresh
+       \/ /\ Len(types[i].vf) < 2 /\ ~InUnion(types, i)
+          /\ types' = [types EXCEPT ![i].vf = Append(@, fresh)] /\ fresh' = fresh + 1
+       \/ /\ Len(types[i].mf) < 2
+          /\ types' = [types EXCEPT ![i].mf = Append(@, fresh)] /\ fresh' = fresh + 1
+       \/ \E p \in 1..Len(types[i].m) : /\ types[i].m[p].acc = "public"
+                                         /\ types' = [types EXCEPT ![i].m[p].acc = "private"] /\ UNCHANGED fresh
+  /\ budget' = [budget EXCEPT !.mem = @ - 1]
+  /\ UNCHANGED <<fns, vars, types2, fns2, vars2, muts, phase, pick>>
 EndMembers == /\ phase = "members"
               /\ phase' = "ifaces" /\ UNCHANGED <<types, fns, vars, types2, fns2, vars2, muts, budget, fresh, pick>>
 
@@ -199,8 +223,10 @@ Log(m) == /\ pick = m.kind /\ pick' = ""
           /\ UNCHANGED <<types, fns, vars, phase>>
 BreakingKinds == {"member-insert", "member-remove", "member-swap", "member-type", "enumerator-value", "array-dim",
                   "param-add", "param-remove", "return-type", "fn-remove", "var-remove"}
+                 \cup (IF Lang = "cxx" THEN {"base-add", "base-remove", "virtual-add", "virtual-remove"} ELSE {})
 UnlistedKinds == {"var-type"}     \* ABI-relevant edits the statement of C05 does not list: used by the relational campaigns only
 HarmlessKinds == {"enumerator-append", "typedef-rename", "param-top-const"}
+                 \cup (IF Lang = "cxx" THEN {"access-change", "method-add"} ELSE {})
 RemoveAt(s, p) == [j \in 1..(Len(s) - 1) |-> IF j < p THEN s[j] ELSE s[j + 1]]
 InsertAt(s, p, x) == [j \in 1..(Len(s) + 1) |-> IF j < p THEN s[j] ELSE IF j = p THEN x ELSE s[j - 1]]
 MaxN(ms) == LET S == {ms[j].n : j \in 1..Len(ms)} IN IF S = {} THEN 0 ELSE CHOOSE x \in S : \A y \in S : y <= x
@@ -262,7 +288,29 @@ Breaking ==
          /\ vars2' = RemoveAt(vars2, k)
          /\ UNCHANGED <<types2, fns2, fresh>> /\ Log(Mut("var-remove", "breaking", 0, vars2[k].id, 0))
 
+  \/ pick = "base-add" /\ \E i \in {i \in Live2 : types2[i].k = "struct"} :
+       \E j \in {j \in TRef(types2) : types2[j].k = "struct" /\ j # i} :
+         /\ i \notin ByVal(types2, j) /\ Len(types2[i].b) < 2 /\ \A k \in 1..Len(types2[i].b) : types2[i].b[k] # j
+         /\ (InUnion(types2, i) => \A x \in ByVal(types2, j) : types2[x].vf = <<>>)
+         /\ types2' = [types2 EXCEPT ![i].b = Append(@, j)]
+         /\ UNCHANGED <<fns2, vars2, fresh>> /\ Log(Mut("base-add", "breaking", i, 0, 0))
+  \/ pick = "base-remove" /\ \E i \in {i \in Live2 : types2[i].k = "struct" /\ types2[i].b # <<>>} : \E p \in 1..Len(types2[i].b) :
+         /\ types2' = [types2 EXCEPT ![i].b = RemoveAt(@, p)]
+         /\ UNCHANGED <<fns2, vars2, fresh>> /\ Log(Mut("base-remove", "breaking", i, 0, p))
+  \/ pick = "virtual-add" /\ \E i \in {i \in Live2 : types2[i].k = "struct" /\ ~InUnion(types2, i)} :
+         /\ types2' = [types2 EXCEPT ![i].vf = Append(@, fresh + 200)] /\ fresh' = fresh + 1
+         /\ UNCHANGED <<fns2, vars2>> /\ Log(Mut("virtual-add", "breaking", i, 0, 0))
+  \/ pick = "virtual-remove" /\ \E i \in {i \in Live2 : types2[i].k = "struct" /\ types2[i].vf # <<>>} : \E p \in 1..Len(types2[i].vf) :
+         /\ types2' = [types2 EXCEPT ![i].vf = RemoveAt(@, p)]
+         /\ UNCHANGED <<fns2, vars2, fresh>> /\ Log(Mut("virtual-remove", "breaking", i, 0, p))
+
 Harmless ==
+  \/ pick = "access-change" /\ \E i \in {i \in Live2 : types2[i].k = "struct"} : \E p \in 1..Len(types2[i].m) :
+         /\ types2' = [types2 EXCEPT ![i].m[p].acc = IF @ = "public" THEN "private" ELSE "public"]
+         /\ UNCHANGED <<fns2, vars2, fresh>> /\ Log(Mut("access-change", "harmless", i, 0, p))
+  \/ pick = "method-add" /\ \E i \in {i \in Live2 : types2[i].k = "struct"} :
+         /\ types2' = [types2 EXCEPT ![i].mf = Append(@, fresh + 300)] /\ fresh' = fresh + 1
+         /\ UNCHANGED <<fns2, vars2>> /\ Log(Mut("method-add", "harmless", i, 0, 0))
   \/ pick = "enumerator-append" /\ \E i \in {i \in Live2 : types2[i].k = "enum"} :
          /\ types2' = [types2 EXCEPT ![i].e = Append(@, [n |-> Len(@) + 1, v |-> MaxV(@) + 1])]
          /\ UNCHANGED <<fns2, vars2, fresh>> /\ Log(Mut("enumerator-append", "harmless", i, 0, 0))
@@ -284,7 +332,7 @@ Mutate == /\ phase = "mutate" /\ pick # ""
 Finish == /\ phase = "mutate" /\ pick = "" /\ budget.mut = 0
           /\ phase' = "done" /\ UNCHANGED <<types, fns, vars, types2, fns2, vars2, muts, budget, fresh, pick>>
 
-Next == ChooseType \/ BuildType \/ EndTypes \/ BuildMember \/ EndMembers \/ ChooseIface \/ BuildIface \/ EndIfaces
+Next == ChooseType \/ BuildType \/ EndTypes \/ BuildMember \/ BuildClassExtra \/ EndMembers \/ ChooseIface \/ BuildIface \/ EndIfaces
         \/ ChooseMut \/ Mutate \/ Finish \/ Unpick
 Spec == Init /\ [][Next]_gvars
 
